@@ -2,17 +2,49 @@
 PROPS["C18"] = dict(
     props_file="Properties/C18.v",
     harnesses=[
-        dict(cmd="creds", mod="root", model="Model.Creds", quick=2000, thorough=100000, shard=500,
+        dict(cmd="creds", mod="root", model="Model.Creds", quick=1200, thorough=100000, shard=300,
              require=["op.pull", "op.remove", "op.query", "op.multi", "op.connect", "op.len", "auth.nil",
                       "auth.sa.empty", "auth.sa.url", "auth.sa.bare", "auth.sa.bad",
                       "auth.form.userpass", "auth.form.token", "auth.form.base64",
                       "pull.invalid-ref", "pull.backend-fails", "query.docker-alias", "case.starts-unconnected",
                       "result.offered", "result.none", "result.error", "result.rejected"]),
+        dict(cmd="credsfetch", mod="root", model="Model.Headers", quick=400, thorough=20000, shard=100,
+             require=["mirror.hdr0", "mirror.hdr1", "mirror.hdr2", "mirror.hdr3", "mirror.invalid", "mirrors.0", "mirrors.2",
+                      "resolve.ok", "resolve.failed", "resolve.ok.mirror", "resolve.ok.redirected",
+                      "spawn.fetch", "spawn.check", "answer.403", "answer.400", "answer.401", "answer.3xx", "answer.2xx",
+                      "req.with-header", "req.to-redirect-location", "final.target-changed", "final.single-range",
+                      "done.ok", "done.failed"]),
     ],
-    rule="",
-    assumptions=[],
-    trusted=[],
-    level_text="",
-    level_note="",
-    technique="",
+    rule="creds: random histories (3..24 ops) of CRI connect / PullImage (image strings incl. docker.io short forms, digests, unparsable; "
+         "auth = user+password | identity token | base64 auth (valid, NUL-padded, no colon, invalid) | several | none; server address empty | URL | "
+         "scheme-less | unparsable; failing backend) / RemoveImage / other calls / credential queries over 9 hosts x 9 references / "
+         "multiCredsFuncs with scripted neighbours; non-trivial = at least one query offered a credential and one refused. "
+         "credsfetch: 0..2 mirrors with string/list/empty/no header tables (+ invalid hosts), scripted answers for resolution and size probe, then up to 5 "
+         "concurrent fetch/check calls run under a deterministic scheduler (held at the fetcher's scheduling point and at every request) with answers "
+         "200/206/204/3xx(+Location: CDN, same-host URL, another mirror's blob URL, none)/400/401/403/404/transport error; non-trivial = a redirect location "
+         "was contacted, a 403 refresh happened and a configured header was sent; distinct = distinct Coq case terms",
+    assumptions=[
+        "all keychain methods are atomic under configMu (a schedule is an op list); the connection goroutine of NewCRIKeychain is the Connect op",
+        "reference normalisation (distribution/reference.ParseDockerRef + containerd reference.Parse/Spec.String) is a contract: the model identifies a "
+        "reference with the index of its normalised form; the harness table fixes the expected index by hand and the run checks it",
+        "net/url.Parse(...).Host and encoding/base64 are contracts: the model takes the server address / auth field in the structured form they are rendered from",
+        "containerd's docker.Authorizer (which host it asks credentials for, token caching, Authorization header) is a contract; the fetcher is driven with the "
+        "authorizer RegistryHostsFromConfig builds, 401 answers carry no challenge",
+        "fetcher threads interleave at the granularity of the critical sections of urlMu / singleRangeMu and of whole request/response exchanges; "
+        "Go-level data races are outside the model",
+    ],
+    level_text="Coq theorems over every history of CRI requests and every credential query (table = auth of the most recent accepted pull per exact reference, "
+               "nothing after remove, nothing for another reference, nothing for a mismatching named server, exact answer otherwise; multiCredsFuncs = first decisive answer) "
+               "and over every registry behaviour and every schedule of concurrent fetch/check sub-steps (every request carrying headers configured for host i goes to "
+               "the blob URL on host i; invariant header<>none -> url = blobURL; resolution, size probe, range fetch, 403 refresh, 400 retry, check). "
+               "Both models are run against the real keychain / ParseAuth / multiCredsFuncs / RegistryHostsFromConfig / httpFetcher every run.",
+    level_note="Models (coq/Model/Creds.v, coq/Model/Headers.v) are hand-written. The header theorem holds for the code WITH patches/C18-fix-1.diff; for the code before the "
+               "fix the model (fixed=false) leaks and C18_headers_confined_without_fix_refuted exhibits the schedule, which the harness replays on the implementation. "
+               "docker.Authorizer, url.Parse, base64 and reference normalisation are contracts.",
+    technique="Coq proof: history invariant by induction over the op list (keychain); state + per-thread snapshot invariant preserved by every atomic sub-step, lifted to all "
+              "schedules (fetcher); correspondence by vm_compute on observed histories / schedules; deterministic scheduler through a verif-only scheduling point",
+    trusted=["service/keychain/cri, resolver.ParseAuth, resolver.multiCredsFuncs are modelled by hand in coq/Model/Creds.v; tie = per-op outputs (accepted/rejected, "
+             "credential answers, number of credential functions called, table size)",
+             "fs/remote newHTTPFetcher/redirect/getSize/fetch/check/refreshURL are modelled by hand in coq/Model/Headers.v; tie = every request (method, target, "
+             "which host's headers), resolution result, completion status per step, final (url, header, singleRange)"],
 )
